@@ -12,7 +12,12 @@
    FIFO queue (frames accepted by MethodSink::send, not yet written) and the wire (frames written, in order); one
    global subscriber table keyed (connection, subscription id); per handler invocation a record.
    The code's non-atomic seams are separate steps:
-     accept  = Accept1 (enqueue the response, answer the call)  THEN  Accept2 (insert the table entry, build the sink)
+     accept  = Accept1 (the answering part: up to the last fallible step)  THEN  Accept2 (the rest)
+               accept() is INTERPRETED: Gen/AcceptOrderGen.accept_steps is the order of its effectful steps as read
+               from the source on every check (tools/translators/accept_order.py); `accept_run` folds that list, a
+               failing fallible step aborts the rest and keeps what was done before it.  For the order the source has
+               now (send to sink, notify the call, insert, build the sink) this is
+               Accept1 = enqueue the response, answer the call     Accept2 = insert the table entry, build the sink
      send    = SendCheck (`is_closed()`)                        THEN  SendEnqueue (`inner.send(json)`)
      writer  = WriterStep pops ONE frame
      closing = HandlerReturn (handler future resolves)          THEN  CloseNotify (the spawned task's `method_sink.send`)
@@ -20,6 +25,16 @@
    `sent cn = c_wire cn ++ c_queue cn` only ever grows: a connection the client dropped keeps what was queued (it is
    never written: WriterStep needs an open connection); a connection the server ends (graceful stop) writes its queue
    first.  A reject / failed accept / unanswered return makes the library drop the handler future (s_returned).
+
+   An ABANDONED subscribe call (AbandonCall): the future returned by the subscribe callback is dropped before it was
+   answered while the connection stays open -- an rpc middleware that gives up on a call (the harness installs one
+   that answers code 44 "abandoned").  Dropping it drops `accepted_tx`, so the task spawned by register_subscription
+   gives up its try_join and drops the handler future at once.  The pending sink either dies with the handler future
+   (keep = false: the handler held it itself; its slot is back) or survives (keep = true: the handler had handed it
+   to another task; state SAbandoned, still holding its permit).  On a surviving sink accept() runs its steps in the
+   source's order and FAILS at `subscribe.send` (the oneshot's receiver is gone): for the order now the response has
+   already been enqueued (the `TODO: #1052` double send: the client reads error 44 and then the success response of
+   the same call) and the table has not been touched; reject() enqueues its error and ends; DropPending lets go of it.
 
    DropSink models the REPAIRED drop (fixes/C06.patch): the table entry is removed by a guard shared by all clones,
    i.e. when the LAST clone goes.  The unrepaired `Drop for SubscriptionSink` (any clone removes the entry) is kept
@@ -32,12 +47,18 @@
      races with the close of its connection is tokio scheduling, not a model step;
    * the unsubscribe callback's table removal and the enqueueing of its answer are one step;
    * one subscription method (one subscriber table); ids come from a counting IdProvider (base + handle);
-   * subscribe calls inside batches (C02); payload sizes (C08); ping/pong. *)
+   * subscribe calls inside batches (C02); payload sizes (C08); ping/pong;
+   * a subscribe call abandoned while its handler is suspended INSIDE accept().await (needs a full outgoing buffer, see the
+     first item): AbandonCall applies to a call whose pending sink has not been used yet; the steps of accept() before
+     the model's seam (Accept1) are one atomic step;
+   * who abandons a call and what it answers is the environment's business: the model enqueues the answer of the
+     harness's middleware (error 44) on the connection, nothing else about the middleware is modelled. *)
 From Coq Require Import List NArith ZArith Bool Arith.
+From JV Require Import Model.AcceptSteps Gen.AcceptOrderGen.
 Import ListNotations.
 
 (* ---------- frames ---------- *)
-Inductive errkind := ETooMany | EInternal | ERejected (code : Z).
+Inductive errkind := ETooMany | EInternal | ERejected (code : Z) | EAbandoned.   (* EAbandoned: the answer of the harness's middleware *)
 Inductive frame :=
 | FSubOk (req : N) (sid : N)                                (* {"id":req,"result":sid}: the response that accepts *)
 | FErr (req : N) (e : errkind)                              (* error response to a subscribe call *)
@@ -74,7 +95,8 @@ Inductive sstate :=
 | SAccepting    (* inside accept(): response enqueued, entry not yet inserted *)
 | SActive       (* accept() returned Ok(sink) *)
 | SRejected     (* reject() *)
-| SDone.        (* accept() failed, or the pending sink was dropped unanswered *)
+| SDone         (* accept() failed, or the pending sink was dropped unanswered *)
+| SAbandoned.   (* the subscribe call was dropped unanswered; the pending sink is alive in a task of its own *)
 Inductive closeval := CNone | CNotif (x : N) | CNotifErr (x : N).
 
 Record sub := mkSub {
@@ -100,6 +122,8 @@ Record st := mkSt {
 Inductive act :=
 | SubscribeCall (c : nat) (req : N)
 | Accept1 (h : nat) | Accept2 (h : nat) | Reject (h : nat) (code : Z)
+| AbandonCall (h : nat) (keep : bool)        (* the subscribe call future is dropped unanswered *)
+| DropPending (h : nat)                      (* the pending sink is dropped unanswered, by whoever holds it *)
 | CloneSink (h : nat) (src k : N) | DropSink (h : nat) (k : N)
 | SendCheck (h : nat) (k : N) (item : N) | SendEnqueue (h : nat) (k : N)
 | IsClosed (h : nat) (k : N)
@@ -229,6 +253,37 @@ Definition close_frame (b : sub) (v : closeval) : option frame :=
 (* the pending sink goes away without a successful accept: the handler future is finished or dropped *)
 Definition sb_fail (x : sstate) (r : bool) (b : sub) : sub := rel_sub r (sb_returned None (sb_state x b)).
 
+(* ---------- accept(), interpreted over the order read from the source ---------- *)
+Definition accept_phase1 : list accept_step := fst (split_answer accept_steps).
+Definition accept_phase2 : list accept_step := snd (split_answer accept_steps).
+
+(* who can still call accept / reject: the pending sink is alive *)
+Definition holds_pending (x : sstate) : bool := match x with SPending | SAbandoned => true | _ => false end.
+(* the subscribe-call future is still waiting on its oneshot *)
+Definition call_waiting (x : sstate) : bool := match x with SPending => true | _ => false end.
+
+Record accept_result := mkAR {
+  ar_ok : bool;                   (* no fallible step failed *)
+  ar_sub : sub -> sub;            (* what was done to the subscription's record, *)
+  ar_conn : conn -> conn;         (* to its connection, *)
+  ar_table : list (nat * N) }.    (* and to the subscriber table, up to the end or up to the failing step *)
+
+(* op: the connection's outgoing channel is open; call: the subscribe-call future waits for the answer *)
+Fixpoint accept_run (op call : bool) (b : sub) (l : list accept_step)
+                    (fs : sub -> sub) (fc : conn -> conn) (t : list (nat * N)) : accept_result :=
+  match l with
+  | [] => mkAR true fs fc t
+  | ASendToSink :: l' =>      (* self.inner.send(response.to_json()).await.map_err(..)? *)
+      if op then accept_run op call b l' fs (fun cn => c_enq (FSubOk (s_req b) (s_id b)) (fc cn)) t
+      else mkAR false fs fc t
+  | ANotifyCall :: l' =>      (* self.subscribe.send(response).map_err(..)? *)
+      if call then accept_run op call b l' fs fc t else mkAR false fs fc t
+  | ATableInsert :: l' =>     (* self.subscribers.lock().insert(uniq_sub, ..) *)
+      accept_run op call b l' fs fc (key_of b :: t)
+  | ABuildSink :: l' =>       (* Ok(SubscriptionSink { .. }) *)
+      accept_run op call b l' (fun x => sb_sinks [0%N] (sb_state SActive (fs x))) fc t
+  end.
+
 (* ---------- one step, before the graceful-stop bookkeeping ---------- *)
 Definition step_core (old : bool) (s : st) (a : act) : st * list obs :=
   match a with
@@ -249,14 +304,15 @@ Definition step_core (old : bool) (s : st) (a : act) : st * list obs :=
   | Accept1 h =>
       match nth_error (subs s) h with
       | Some b =>
-          match s_state b with
-          | SPending =>
-              if conn_open s (s_conn b) then
-                (apply s h b (sb_state SAccepting) (c_enq (FSubOk (s_req b) (s_id b))) (table s), [OAck])
-              else    (* inner.send failed: Err(PendingSubscriptionAcceptError); the pending sink and its permit are gone *)
-                (apply s h b (sb_fail SDone (s_has_permit b)) (rel_conn (s_has_permit b)) (table s), [OAccept h false])
-          | _ => (s, [])
-          end
+          if holds_pending (s_state b) then
+            let r := accept_run (conn_open s (s_conn b)) (call_waiting (s_state b)) b accept_phase1
+                                (fun x => x) (fun cn => cn) (table s) in
+            if ar_ok r then
+              (apply s h b (fun x => sb_state SAccepting (ar_sub r x)) (ar_conn r) (ar_table r), [OAck])
+            else    (* Err(PendingSubscriptionAcceptError): what was done stays done; the pending sink and its permit are gone *)
+              (apply s h b (fun x => sb_fail SDone (s_has_permit b) (ar_sub r x))
+                 (fun cn => rel_conn (s_has_permit b) (ar_conn r cn)) (ar_table r), [OAccept h false])
+          else (s, [])
       | None => (s, [])
       end
   | Accept2 h =>
@@ -264,7 +320,8 @@ Definition step_core (old : bool) (s : st) (a : act) : st * list obs :=
       | Some b =>
           match s_state b with
           | SAccepting =>
-              (apply s h b (fun x => sb_sinks [0%N] (sb_state SActive x)) (fun cn => cn) (key_of b :: table s), [OAccept h true])
+              let r := accept_run (conn_open s (s_conn b)) true b accept_phase2 (fun x => x) (fun cn => cn) (table s) in
+              (apply s h b (ar_sub r) (ar_conn r) (ar_table r), [OAccept h true])
           | _ => (s, [])
           end
       | None => (s, [])
@@ -272,10 +329,38 @@ Definition step_core (old : bool) (s : st) (a : act) : st * list obs :=
   | Reject h code =>
       match nth_error (subs s) h with
       | Some b =>
-          match s_state b with
-          | SPending =>
+          (* reject(): `_ = inner.send(err)`, `_ = subscribe.send(err)`: on an abandoned call the second is lost *)
+          if holds_pending (s_state b) then
               (apply s h b (sb_fail SRejected (s_has_permit b))
                  (fun cn => rel_conn (s_has_permit b) (c_push (FErr (s_req b) (ERejected code)) cn)) (table s), [OAck])
+          else (s, [])
+      | None => (s, [])
+      end
+  | AbandonCall h keep =>
+      match nth_error (subs s) h with
+      | Some b =>
+          match s_state b with
+          | SPending =>
+              (* the middleware answers the call itself; the library drops the handler future *)
+              if keep then
+                (apply s h b (fun x => sb_returned None (sb_state SAbandoned x))
+                   (c_push (FErr (s_req b) EAbandoned)) (table s), [OAck])
+              else
+                (apply s h b (sb_fail SDone (s_has_permit b))
+                   (fun cn => rel_conn (s_has_permit b) (c_push (FErr (s_req b) EAbandoned) cn)) (table s), [OAck])
+          | _ => (s, [])
+          end
+      | None => (s, [])
+      end
+  | DropPending h =>
+      match nth_error (subs s) h with
+      | Some b =>
+          match s_state b with
+          | SPending =>   (* as when the handler returns without answering: the call future answers -32603 *)
+              (apply s h b (sb_fail SDone (s_has_permit b))
+                 (fun cn => rel_conn (s_has_permit b) (c_push (FErr (s_req b) EInternal) cn)) (table s), [OAck])
+          | SAbandoned => (* nobody is waiting for an answer *)
+              (apply s h b (sb_fail SDone (s_has_permit b)) (rel_conn (s_has_permit b)) (table s), [OAck])
           | _ => (s, [])
           end
       | None => (s, [])
